@@ -94,10 +94,55 @@ spec fn ku_must_err(ctx: ValidationContext) -> bool {
         && lines_of(content_of(ctx.blocks@[f].blocks_with_context@[j].block, ctx.blocks@[f].file_content@)).len() > 0
 }
 
+/// the inner contract does not promise Ok for this block (duplicate key, or regex error)
+spec fn ku_block_may_err(b: BlockWithContext, fb: FileBlocks) -> bool {
+    exists|re: Option<Result<regex::Regex, regex::Error>>| #[trigger] ku_re_ok(b, re)
+        && !((forall|i: int| !#[trigger] is_dup(keys_of(re, content_of(b.block, fb.file_content@)), i)) && !(re matches Some(Err(_))))
+}
+
+spec fn ku_may_err(ctx: ValidationContext) -> bool {
+    exists|f: PathBuf, j: int| ctx.blocks@.contains_key(f) && 0 <= j < ctx.blocks@[f].blocks_with_context@.len()
+        && ku_has(#[trigger] ctx.blocks@[f].blocks_with_context@[j])
+        && ku_block_may_err(ctx.blocks@[f].blocks_with_context@[j], ctx.blocks@[f])
+}
+
+
+proof fn lemma_ku_step_frame(fb1: FileBlocks, fb2: FileBlocks, j: int, a: Seq<Violation>, b: Seq<Violation>)
+    requires 0 <= j < fb1.blocks_with_context@.len() == fb2.blocks_with_context@.len(), fb1.file_content@ == fb2.file_content@, fb1.blocks_with_context@[j].block == fb2.blocks_with_context@[j].block,
+    ensures ku_step(fb1, j, a, b) == ku_step(fb2, j, a, b),
+{
+    let b1 = fb1.blocks_with_context@[j];
+    let b2 = fb2.blocks_with_context@[j];
+    assert forall|re: Option<Result<regex::Regex, regex::Error>>| (#[trigger] ku_re_ok(b1, re) && ku_inner_ok(b1, fb1, re, a, b)) == (ku_re_ok(b2, re) && ku_inner_ok(b2, fb2, re, a, b)) by {}
+    if ku_has(b1) {
+        if ku_step(fb1, j, a, b) {
+            let re = choose|re: Option<Result<regex::Regex, regex::Error>>| #[trigger] ku_re_ok(b1, re) && ku_inner_ok(b1, fb1, re, a, b);
+            assert(ku_re_ok(b2, re) && ku_inner_ok(b2, fb2, re, a, b));
+        }
+        if ku_step(fb2, j, a, b) {
+            let re = choose|re: Option<Result<regex::Regex, regex::Error>>| #[trigger] ku_re_ok(b2, re) && ku_inner_ok(b2, fb2, re, a, b);
+            assert(ku_re_ok(b1, re) && ku_inner_ok(b1, fb1, re, a, b));
+        }
+    }
+}
+
+/// [VO2.lemma.flags_are_not_an_input] C02 frame: which lists the blocks of a file can leave behind does not
+/// depend on `is_content_modified` / `_is_start_tag_modified` (no contract mentions them)
+proof fn lemma_ku_frame(f: PathBuf, fb1: FileBlocks, fb2: FileBlocks, l: Seq<Violation>)
+    requires same_but_flags(fb1, fb2),
+    ensures acc_ok(ku_stepf()(f, fb1), fb1.blocks_with_context@.len() as int, l) == acc_ok(ku_stepf()(f, fb2), fb2.blocks_with_context@.len() as int, l),
+{
+    assert forall|j: int, a: Seq<Violation>, b: Seq<Violation>| 0 <= j < fb1.blocks_with_context@.len()
+        implies #[trigger] ku_stepf()(f, fb1)(j, a, b) == ku_stepf()(f, fb2)(j, a, b) by {
+        assert(fb1.blocks_with_context@[j].block == fb2.blocks_with_context@[j].block);
+        lemma_ku_step_frame(fb1, fb2, j, a, b);
+    }
+    lemma_acc_congruent(ku_stepf()(f, fb1), ku_stepf()(f, fb2), fb1.blocks_with_context@.len() as int, l);
+}
+
 impl KeepUniqueValidator {
 
 //@stubof group=keep_unique unit=V2
-        forall|k2: PathBuf| k2 != *file_path && #[trigger] final(violations)@.contains_key(k2) ==> old(violations)@.contains_key(k2), // [V2.stub.no_new_files_assumed]
 
 #[verifier::loop_isolation(false)]
 //@unit id=VO2 file=src/validators/keep_unique.rs fn=<<impl ValidatorSync for KeepUniqueValidator::validate>>
@@ -113,8 +158,11 @@ impl KeepUniqueValidator {
             r matches Ok(m) ==> outer_ok(*context, m@, ku_stepf()), // [VO2.post.result_is_accumulation_of_inner_results]
             // an inner Err is never swallowed
             ku_must_err(*context) ==> r is Err, // [VO2.post.err_propagates]
-//@replaceslice rule=SLICE-CALL from=<<let mut seen>> to_block_end=1
+            // an error is not invented: it needs a block with the attribute for which the inner contract allows Err
+            r is Err ==> ku_may_err(*context), // [VO2.post.err_only_from_inner]
+//@replaceslice rule=SLICE-CALL of=keep_unique:V2
 Self::v2_loop(block_with_context, file_blocks, file_path, re, &mut violations)?;
+//@macro rule=E1 name=anyhow to=<<anyhow::verif_err()>> optional=1
 //@edit rule=E19 find=<<let mut violations = HashMap::new()>>
 let mut violations: HashMap<PathBuf, Vec<Violation>> = HashMap::new()
 //@edit rule=ghost before=<<let mut violations>>
@@ -179,6 +227,575 @@ let mut violations: HashMap<PathBuf, Vec<Violation>> = HashMap::new()
 //@end
 } // impl
 } // mod ku
+
+// ==== line-pattern ==============================================================================================
+mod lp {
+use super::*;
+broadcast use {vstd::std_specs::hash::group_hash_axioms, tstr::group_tstr, affx::group_affx};
+
+//@item file=src/validators/line_pattern.rs kind=struct name=LinePatternValidator
+//@item file=src/validators/line_pattern.rs kind=struct name=LinePatternViolation
+//@copyfrom file=groups/line_pattern.rs from=<<// ---- specification>> until=<<impl LinePatternValidator {>>
+
+spec fn lp_has(b: BlockWithContext) -> bool {
+    attr_view(b.block.attributes@, "line-pattern"@) is Some
+}
+
+/// the block's OWN attribute value
+spec fn lp_pattern(b: BlockWithContext) -> Seq<char> {
+    attr_view(b.block.attributes@, "line-pattern"@).unwrap()
+}
+
+/// V3's proven contract, given that it returned Ok, read on the list of the block's own file
+spec fn lp_inner_ok(b: BlockWithContext, fb: FileBlocks, pattern: Seq<char>, before: Seq<Violation>, after: Seq<Violation>) -> bool {
+    let lines = lines_of(content_of(b.block, fb.file_content@));
+    &&& regex::compile_spec(pattern) is Some
+    &&& ((forall|i: int| !#[trigger] first_failing(regex::compile_spec(pattern).unwrap(), lines, i)) ==> after == before)
+    &&& ((exists|i: int| #[trigger] first_failing(regex::compile_spec(pattern).unwrap(), lines, i)) ==> exists|i: int, v: Violation|
+            first_failing(regex::compile_spec(pattern).unwrap(), lines, i) && after == before.push(v)
+            && #[trigger] trimmed_range_ok(v, b.block, lines[i], i) && v.code@ == "line-pattern"@)
+}
+
+spec fn lp_step(fb: FileBlocks, j: int, before: Seq<Violation>, after: Seq<Violation>) -> bool {
+    let b = fb.blocks_with_context@[j];
+    if !lp_has(b) {
+        after == before // [VO3.post.other_blocks_untouched]
+    } else {
+        lp_inner_ok(b, fb, lp_pattern(b), before, after)
+    }
+}
+
+spec fn lp_stepf() -> spec_fn(PathBuf, FileBlocks) -> spec_fn(int, Seq<Violation>, Seq<Violation>) -> bool {
+    |f: PathBuf, fb: FileBlocks| (|j: int, a: Seq<Violation>, b: Seq<Violation>| lp_step(fb, j, a, b))
+}
+
+/// C13: some block carries a `line-pattern` that does not compile
+spec fn lp_must_err(ctx: ValidationContext) -> bool {
+    exists|f: PathBuf, j: int| ctx.blocks@.contains_key(f) && 0 <= j < ctx.blocks@[f].blocks_with_context@.len()
+        && lp_has(#[trigger] ctx.blocks@[f].blocks_with_context@[j])
+        && regex::compile_spec(lp_pattern(ctx.blocks@[f].blocks_with_context@[j])) is None
+}
+
+/// the inner contract does not promise Ok for this block (bad regex, or some line fails)
+spec fn lp_block_may_err(b: BlockWithContext, fb: FileBlocks) -> bool {
+    !(regex::compile_spec(lp_pattern(b)) is Some && forall|i: int| !#[trigger] first_failing(regex::compile_spec(lp_pattern(b)).unwrap(),
+        lines_of(content_of(b.block, fb.file_content@)), i))
+}
+
+spec fn lp_may_err(ctx: ValidationContext) -> bool {
+    exists|f: PathBuf, j: int| ctx.blocks@.contains_key(f) && 0 <= j < ctx.blocks@[f].blocks_with_context@.len()
+        && lp_has(#[trigger] ctx.blocks@[f].blocks_with_context@[j])
+        && lp_block_may_err(ctx.blocks@[f].blocks_with_context@[j], ctx.blocks@[f])
+}
+
+
+proof fn lemma_lp_step_frame(fb1: FileBlocks, fb2: FileBlocks, j: int, a: Seq<Violation>, b: Seq<Violation>)
+    requires 0 <= j < fb1.blocks_with_context@.len() == fb2.blocks_with_context@.len(), fb1.file_content@ == fb2.file_content@, fb1.blocks_with_context@[j].block == fb2.blocks_with_context@[j].block,
+    ensures lp_step(fb1, j, a, b) == lp_step(fb2, j, a, b),
+{
+}
+
+/// [VO3.lemma.flags_are_not_an_input] C02 frame: which lists the blocks of a file can leave behind does not
+/// depend on `is_content_modified` / `_is_start_tag_modified` (no contract mentions them)
+proof fn lemma_lp_frame(f: PathBuf, fb1: FileBlocks, fb2: FileBlocks, l: Seq<Violation>)
+    requires same_but_flags(fb1, fb2),
+    ensures acc_ok(lp_stepf()(f, fb1), fb1.blocks_with_context@.len() as int, l) == acc_ok(lp_stepf()(f, fb2), fb2.blocks_with_context@.len() as int, l),
+{
+    assert forall|j: int, a: Seq<Violation>, b: Seq<Violation>| 0 <= j < fb1.blocks_with_context@.len()
+        implies #[trigger] lp_stepf()(f, fb1)(j, a, b) == lp_stepf()(f, fb2)(j, a, b) by {
+        assert(fb1.blocks_with_context@[j].block == fb2.blocks_with_context@[j].block);
+        lemma_lp_step_frame(fb1, fb2, j, a, b);
+    }
+    lemma_acc_congruent(lp_stepf()(f, fb1), lp_stepf()(f, fb2), fb1.blocks_with_context@.len() as int, l);
+}
+
+impl LinePatternValidator {
+
+//@stubof group=line_pattern unit=V3
+
+#[verifier::loop_isolation(false)]
+//@unit id=VO3 file=src/validators/line_pattern.rs fn=<<impl ValidatorSync for LinePatternValidator::validate>>
+//@sig rule=E7 was=<<fn validate(&self, context: Arc<validators::ValidationContext>,) -> anyhow::Result<HashMap<PathBuf, Vec<Violation>>>>>
+    fn validate(&self, context: Arc<ValidationContext>) -> (r: anyhow::Result<HashMap<PathBuf, Vec<Violation>>>)
+//@contract
+        requires
+            ctx_blocks_wf(*context),
+        ensures
+            r matches Ok(m) ==> outer_ok(*context, m@, lp_stepf()), // [VO3.post.result_is_accumulation_of_inner_results]
+            lp_must_err(*context) ==> r is Err, // [VO3.post.err_propagates]
+            // an error is not invented: it needs a block with the attribute for which the inner contract allows Err
+            r is Err ==> lp_may_err(*context), // [VO3.post.err_only_from_inner]
+//@replaceslice rule=SLICE-CALL of=line_pattern:V3
+Self::v3_loop(block_with_context, file_blocks, file_path, pattern, &mut violations)?;
+//@macro rule=E1 name=anyhow to=<<anyhow::verif_err()>> optional=1
+//@edit rule=E19 find=<<let mut violations = HashMap::new()>>
+let mut violations: HashMap<PathBuf, Vec<Violation>> = HashMap::new()
+//@edit rule=ghost before=<<let mut violations>>
+        broadcast use affx::group_affx;
+//@edit rule=ghost before=<<for block_with_context in &file_blocks.blocks_with_context>>
+            let ghost v0 = violations@;
+            proof {
+                assert(verif_ents@[it.index@ as int] == (file_path, file_blocks));
+                lemma_file_start(verif_ents@, it.index@ as int, v0, lp_stepf()); // [VO3.proof.each_file_visited_once]
+            }
+//@edit rule=E4 find=<<for (file_path, file_blocks) in &context.blocks>>
+        let verif_ents = verif_ref_entries(&context.blocks);
+        for (file_path, file_blocks) in it: verif_ents
+            invariant
+                ref_entries_of(verif_ents@, context.blocks@),
+                ctx_blocks_wf(*context),
+                visited_ok(verif_ents@, it.index@ as int, violations@, lp_stepf()),
+//@foridx rule=E18 find=<<for block_with_context in &file_blocks.blocks_with_context>> idx=verif_j
+                invariant
+                    verif_j <= file_blocks.blocks_with_context@.len(),
+                    0 <= it.index@ < verif_ents@.len(),
+                    verif_ents@[it.index@ as int] == (file_path, file_blocks),
+                    file_ok(*file_path, *file_blocks, verif_j as int, v0, violations@, lp_stepf()(*file_path, *file_blocks)),
+                decreases file_blocks.blocks_with_context@.len() - verif_j,
+//@edit rule=ghost after=<<verif_j = verif_j + 1;>>
+                let ghost m1 = violations@;
+                proof {
+                    assert(*block_with_context == file_blocks.blocks_with_context@[verif_j - 1]);
+                    assert(context.blocks@.contains_key(*file_path) && context.blocks@[*file_path] == *file_blocks);
+                    assert(block_wf(context.blocks@[*file_path].blocks_with_context@[verif_j - 1].block));
+                    if !lp_has(*block_with_context) {
+                        lemma_file_step(*file_path, *file_blocks, verif_j - 1, v0, m1, m1, lp_stepf()(*file_path, *file_blocks)); // [VO3.proof.block_without_attribute_is_skipped]
+                    }
+                }
+//@edit rule=ghost before=<<Self::v3_loop(>>
+                proof { assert(lp_has(*block_with_context) && pattern@ == lp_pattern(*block_with_context)); } // [VO3.proof.args_are_the_blocks_own]
+//@edit rule=ghost after=<<file_path, pattern, &mut violations)?;>>
+                proof {
+                    assert(lp_inner_ok(*block_with_context, *file_blocks, pattern@, map_get_or_empty(m1, *file_path), map_get_or_empty(violations@, *file_path))); // [VO3.proof.inner_contract_implies_step_relation]
+                    lemma_file_step(*file_path, *file_blocks, verif_j - 1, v0, m1, violations@, lp_stepf()(*file_path, *file_blocks)); // [VO3.proof.inner_contract_gives_step]
+                }
+//@edit rule=ghost before=<<} Ok(violations)>>
+            proof { lemma_file_done(verif_ents@, it.index@ as int, v0, violations@, lp_stepf()); } // [VO3.proof.file_done]
+//@edit rule=ghost before=<<Ok(violations)>>
+        proof {
+            assert(outer_ok(*context, violations@, lp_stepf())) by {
+                lemma_visited_all(*context, verif_ents@, violations@, lp_stepf());
+            }
+            assert(!lp_must_err(*context)) by { // [VO3.proof.must_err_block_cannot_have_stepped]
+                if lp_must_err(*context) {
+                    let (f, j) = choose|f: PathBuf, j: int| context.blocks@.contains_key(f) && 0 <= j < context.blocks@[f].blocks_with_context@.len()
+                        && lp_has(#[trigger] context.blocks@[f].blocks_with_context@[j])
+                        && regex::compile_spec(lp_pattern(context.blocks@[f].blocks_with_context@[j])) is None;
+                    lemma_acc_step(lp_stepf()(f, context.blocks@[f]), context.blocks@[f].blocks_with_context@.len() as int, map_get_or_empty(violations@, f), j);
+                }
+            }
+        }
+//@end
+} // impl
+} // mod lp
+
+// ==== line-count ================================================================================================
+mod lc {
+use super::*;
+broadcast use {vstd::std_specs::hash::group_hash_axioms, tstr::group_tstr, affx::group_affx};
+
+//@item file=src/validators/line_count.rs kind=struct name=LineCountValidator
+//@item file=src/validators/line_count.rs kind=struct name=LineCountViolation
+//@item file=src/validators/line_count.rs kind=enum name=Op
+//@copyfrom file=groups/line_count.rs from=<<// ---- specification>> until=<<impl Op {>>
+//@copyfrom file=groups/line_count.rs from=<</// C09: "the number of its non-blank>> until=<<impl LineCountValidator {>>
+
+spec fn lc_has(b: BlockWithContext) -> bool {
+    attr_view(b.block.attributes@, "line-count"@) is Some
+}
+
+/// the block's OWN attribute value
+spec fn lc_expr(b: BlockWithContext) -> Seq<char> {
+    attr_view(b.block.attributes@, "line-count"@).unwrap()
+}
+
+/// the one diagnostic V4 produces: code, start-tag range, payload (actual, op, bound)
+spec fn lc_viol_ok(v: Violation, d: serde_json::Value, b: BlockWithContext, fb: FileBlocks, op: Op, expected: usize) -> bool {
+    &&& v.code@ == "line-count"@
+    &&& v.range.start == b.block.start_tag_position_range@.start
+    &&& v.range.end == b.block.start_tag_position_range@.end
+    &&& v.data == Some(d)
+    &&& exists|payload: LineCountViolation| #[trigger] serde_json::value_encodes(d, payload)
+            && payload.actual == nonblank_count(content_of(b.block, fb.file_content@))
+            && payload.op@ == op_token(op) && payload.expected == expected
+}
+
+/// V4's proven contract, given that it returned Ok, read on the list of the block's own file
+spec fn lc_inner_ok(b: BlockWithContext, fb: FileBlocks, op: Op, expected: usize, before: Seq<Violation>, after: Seq<Violation>) -> bool {
+    let actual = nonblank_count(content_of(b.block, fb.file_content@)) as int;
+    &&& (op_holds(op, actual, expected as int) ==> after == before)
+    &&& (!op_holds(op, actual, expected as int) ==> exists|v: Violation, d: serde_json::Value|
+            after == before.push(v) && #[trigger] lc_viol_ok(v, d, b, fb, op, expected))
+}
+
+/// the block's own `line-count` value must parse (V4p), and V4 is applied to the parsed (op, bound)
+spec fn lc_step(fb: FileBlocks, j: int, before: Seq<Violation>, after: Seq<Violation>) -> bool {
+    let b = fb.blocks_with_context@[j];
+    if !lc_has(b) {
+        after == before // [VO4.post.other_blocks_untouched]
+    } else {
+        constraint_of(lc_expr(b)) is Some
+            && lc_inner_ok(b, fb, constraint_of(lc_expr(b)).unwrap().0, constraint_of(lc_expr(b)).unwrap().1, before, after)
+    }
+}
+
+spec fn lc_stepf() -> spec_fn(PathBuf, FileBlocks) -> spec_fn(int, Seq<Violation>, Seq<Violation>) -> bool {
+    |f: PathBuf, fb: FileBlocks| (|j: int, a: Seq<Violation>, b: Seq<Violation>| lc_step(fb, j, a, b))
+}
+
+/// C13: some block carries a bad `line-count` expression
+spec fn lc_must_err(ctx: ValidationContext) -> bool {
+    exists|f: PathBuf, j: int| ctx.blocks@.contains_key(f) && 0 <= j < ctx.blocks@[f].blocks_with_context@.len()
+        && lc_has(#[trigger] ctx.blocks@[f].blocks_with_context@[j])
+        && constraint_of(lc_expr(ctx.blocks@[f].blocks_with_context@[j])) is None
+}
+
+/// the inner contracts do not promise Ok for this block (bad expression, or the bound is broken)
+spec fn lc_block_may_err(b: BlockWithContext, fb: FileBlocks) -> bool {
+    constraint_of(lc_expr(b)) is None
+        || !op_holds(constraint_of(lc_expr(b)).unwrap().0, nonblank_count(content_of(b.block, fb.file_content@)) as int, constraint_of(lc_expr(b)).unwrap().1 as int)
+}
+
+spec fn lc_may_err(ctx: ValidationContext) -> bool {
+    exists|f: PathBuf, j: int| ctx.blocks@.contains_key(f) && 0 <= j < ctx.blocks@[f].blocks_with_context@.len()
+        && lc_has(#[trigger] ctx.blocks@[f].blocks_with_context@[j])
+        && lc_block_may_err(ctx.blocks@[f].blocks_with_context@[j], ctx.blocks@[f])
+}
+
+
+proof fn lemma_lc_step_frame(fb1: FileBlocks, fb2: FileBlocks, j: int, a: Seq<Violation>, b: Seq<Violation>)
+    requires 0 <= j < fb1.blocks_with_context@.len() == fb2.blocks_with_context@.len(), fb1.file_content@ == fb2.file_content@, fb1.blocks_with_context@[j].block == fb2.blocks_with_context@[j].block,
+    ensures lc_step(fb1, j, a, b) == lc_step(fb2, j, a, b),
+{
+    let b1 = fb1.blocks_with_context@[j];
+    let b2 = fb2.blocks_with_context@[j];
+    if lc_has(b1) && constraint_of(lc_expr(b1)) is Some {
+        let op = constraint_of(lc_expr(b1)).unwrap().0;
+        let n = constraint_of(lc_expr(b1)).unwrap().1;
+        if !op_holds(op, nonblank_count(content_of(b1.block, fb1.file_content@)) as int, n as int) {
+            if lc_step(fb1, j, a, b) {
+                let (v, d) = choose|v: Violation, d: serde_json::Value| b == a.push(v) && #[trigger] lc_viol_ok(v, d, b1, fb1, op, n);
+                assert(b == a.push(v) && lc_viol_ok(v, d, b2, fb2, op, n));
+            }
+            if lc_step(fb2, j, a, b) {
+                let (v, d) = choose|v: Violation, d: serde_json::Value| b == a.push(v) && #[trigger] lc_viol_ok(v, d, b2, fb2, op, n);
+                assert(b == a.push(v) && lc_viol_ok(v, d, b1, fb1, op, n));
+            }
+        }
+    }
+}
+
+/// [VO4.lemma.flags_are_not_an_input] C02 frame: which lists the blocks of a file can leave behind does not
+/// depend on `is_content_modified` / `_is_start_tag_modified` (no contract mentions them)
+proof fn lemma_lc_frame(f: PathBuf, fb1: FileBlocks, fb2: FileBlocks, l: Seq<Violation>)
+    requires same_but_flags(fb1, fb2),
+    ensures acc_ok(lc_stepf()(f, fb1), fb1.blocks_with_context@.len() as int, l) == acc_ok(lc_stepf()(f, fb2), fb2.blocks_with_context@.len() as int, l),
+{
+    assert forall|j: int, a: Seq<Violation>, b: Seq<Violation>| 0 <= j < fb1.blocks_with_context@.len()
+        implies #[trigger] lc_stepf()(f, fb1)(j, a, b) == lc_stepf()(f, fb2)(j, a, b) by {
+        assert(fb1.blocks_with_context@[j].block == fb2.blocks_with_context@[j].block);
+        lemma_lc_step_frame(fb1, fb2, j, a, b);
+    }
+    lemma_acc_congruent(lc_stepf()(f, fb1), lc_stepf()(f, fb2), fb1.blocks_with_context@.len() as int, l);
+}
+
+//@stubof group=line_count unit=V4p
+
+impl LineCountValidator {
+
+//@stubof group=line_count unit=V4
+
+#[verifier::loop_isolation(false)]
+//@unit id=VO4 file=src/validators/line_count.rs fn=<<impl ValidatorSync for LineCountValidator::validate>>
+//@sig rule=E7 was=<<fn validate(&self, context: Arc<validators::ValidationContext>,) -> anyhow::Result<HashMap<PathBuf, Vec<Violation>>>>>
+    fn validate(&self, context: Arc<ValidationContext>) -> (r: anyhow::Result<HashMap<PathBuf, Vec<Violation>>>)
+//@contract
+        requires
+            ctx_blocks_wf(*context),
+        ensures
+            r matches Ok(m) ==> outer_ok(*context, m@, lc_stepf()), // [VO4.post.result_is_accumulation_of_inner_results]
+            lc_must_err(*context) ==> r is Err, // [VO4.post.err_propagates]
+            // an error is not invented: it needs a block with the attribute for which the inner contract allows Err
+            r is Err ==> lc_may_err(*context), // [VO4.post.err_only_from_inner]
+//@replaceslice rule=SLICE-CALL of=line_count:V4
+Self::v4_check(block_with_context, file_blocks, file_path, op, expected, &mut violations)?;
+//@edit rule=E19 find=<<let mut violations = HashMap::new()>>
+let mut violations: HashMap<PathBuf, Vec<Violation>> = HashMap::new()
+//@edit rule=ghost before=<<let mut violations>>
+        broadcast use affx::group_affx;
+//@edit rule=ghost before=<<for block_with_context in &file_blocks.blocks_with_context>>
+            let ghost v0 = violations@;
+            proof {
+                assert(verif_ents@[it.index@ as int] == (file_path, file_blocks));
+                lemma_file_start(verif_ents@, it.index@ as int, v0, lc_stepf()); // [VO4.proof.each_file_visited_once]
+            }
+//@edit rule=E4 find=<<for (file_path, file_blocks) in &context.blocks>>
+        let verif_ents = verif_ref_entries(&context.blocks);
+        for (file_path, file_blocks) in it: verif_ents
+            invariant
+                ref_entries_of(verif_ents@, context.blocks@),
+                ctx_blocks_wf(*context),
+                visited_ok(verif_ents@, it.index@ as int, violations@, lc_stepf()),
+//@foridx rule=E18 find=<<for block_with_context in &file_blocks.blocks_with_context>> idx=verif_j
+                invariant
+                    verif_j <= file_blocks.blocks_with_context@.len(),
+                    0 <= it.index@ < verif_ents@.len(),
+                    verif_ents@[it.index@ as int] == (file_path, file_blocks),
+                    file_ok(*file_path, *file_blocks, verif_j as int, v0, violations@, lc_stepf()(*file_path, *file_blocks)),
+                decreases file_blocks.blocks_with_context@.len() - verif_j,
+//@edit rule=ghost after=<<verif_j = verif_j + 1;>>
+                let ghost m1 = violations@;
+                proof {
+                    assert(*block_with_context == file_blocks.blocks_with_context@[verif_j - 1]);
+                    assert(context.blocks@.contains_key(*file_path) && context.blocks@[*file_path] == *file_blocks);
+                    assert(block_wf(context.blocks@[*file_path].blocks_with_context@[verif_j - 1].block));
+                    if !lc_has(*block_with_context) {
+                        lemma_file_step(*file_path, *file_blocks, verif_j - 1, v0, m1, m1, lc_stepf()(*file_path, *file_blocks)); // [VO4.proof.block_without_attribute_is_skipped]
+                    }
+                }
+//@macro rule=E1 name=anyhow to=<<anyhow::verif_err()>>
+//@closure rule=E12 find=<<|e|>> params=<<|e: anyhow::Error|>> ret=<<e2: anyhow::Error>>
+//@edit rule=ghost before=<<Self::v4_check(>>
+                proof { assert(lc_has(*block_with_context) && constraint_of(lc_expr(*block_with_context)) == Some((op, expected))); } // [VO4.proof.args_are_the_blocks_own]
+//@edit rule=ghost after=<<file_path, op, expected, &mut violations)?;>>
+                proof {
+                    assert(lc_inner_ok(*block_with_context, *file_blocks, op, expected, map_get_or_empty(m1, *file_path), map_get_or_empty(violations@, *file_path))) by { // [VO4.proof.inner_contract_implies_step_relation]
+                        if !op_holds(op, nonblank_count(content_of(block_with_context.block, file_blocks.file_content@)) as int, expected as int) {
+                            let (v, d) = choose|v: Violation, d: serde_json::Value|
+                                   violations@.dom() == m1.dom().insert(*file_path)
+                                && violations@[*file_path]@ == map_get_or_empty(m1, *file_path).push(v)
+                                && v.code@ == "line-count"@
+                                && v.range.start == block_with_context.block.start_tag_position_range@.start
+                                && v.range.end == block_with_context.block.start_tag_position_range@.end
+                                && v.data == Some(d) && exists|payload: LineCountViolation| #[trigger] serde_json::value_encodes(d, payload)
+                                    && payload.actual == nonblank_count(content_of(block_with_context.block, file_blocks.file_content@))
+                                    && payload.op@ == op_token(op) && payload.expected == expected;
+                            assert(lc_viol_ok(v, d, *block_with_context, *file_blocks, op, expected));
+                        }
+                    }
+                    lemma_file_step(*file_path, *file_blocks, verif_j - 1, v0, m1, violations@, lc_stepf()(*file_path, *file_blocks)); // [VO4.proof.inner_contract_gives_step]
+                }
+//@edit rule=ghost before=<<} Ok(violations)>>
+            proof { lemma_file_done(verif_ents@, it.index@ as int, v0, violations@, lc_stepf()); } // [VO4.proof.file_done]
+//@edit rule=ghost before=<<Ok(violations)>>
+        proof {
+            assert(outer_ok(*context, violations@, lc_stepf())) by {
+                lemma_visited_all(*context, verif_ents@, violations@, lc_stepf());
+            }
+            assert(!lc_must_err(*context)) by { // [VO4.proof.must_err_block_cannot_have_stepped]
+                if lc_must_err(*context) {
+                    let (f, j) = choose|f: PathBuf, j: int| context.blocks@.contains_key(f) && 0 <= j < context.blocks@[f].blocks_with_context@.len()
+                        && lc_has(#[trigger] context.blocks@[f].blocks_with_context@[j])
+                        && constraint_of(lc_expr(context.blocks@[f].blocks_with_context@[j])) is None;
+                    lemma_acc_step(lc_stepf()(f, context.blocks@[f]), context.blocks@[f].blocks_with_context@.len() as int, map_get_or_empty(violations@, f), j);
+                }
+            }
+        }
+//@end
+} // impl
+} // mod lc
+
+// ==== keep-sorted ===============================================================================================
+mod ks {
+use super::*;
+broadcast use {vstd::std_specs::hash::group_hash_axioms, tstr::group_tstr, affx::group_affx};
+
+//@item file=src/validators/keep_sorted.rs kind=enum name=SortFormat
+//@item file=src/validators/keep_sorted.rs kind=struct name=KeepSortedValidator
+//@item file=src/validators/keep_sorted.rs kind=struct name=KeepSortedViolation
+//@copyfrom file=groups/keep_sorted.rs from=<<// strum's>> until=<<impl SortFormat {>> until_nth=2
+
+spec fn ks_has(b: BlockWithContext) -> bool {
+    attr_view(b.block.attributes@, "keep-sorted"@) is Some
+}
+
+/// the block's OWN attribute value
+spec fn ks_value(b: BlockWithContext) -> Seq<char> {
+    attr_view(b.block.attributes@, "keep-sorted"@).unwrap()
+}
+
+/// V1d's proven contract given Ok: (regex, format, violating order) come from the block's OWN attributes
+spec fn ks_args_ok(b: BlockWithContext, re: Option<Result<regex::Regex, regex::Error>>, fmt: SortFormat, viol: Ordering) -> bool {
+    &&& direction_spec(ks_value(b)) == Some(viol == Ordering::Greater)
+    &&& (viol == Ordering::Greater || viol == Ordering::Less)
+    &&& format_spec(b.block.attributes@) == Some(fmt)
+    &&& (pattern_spec(b.block.attributes@).len() == 0 ==> re is None)
+    &&& (pattern_spec(b.block.attributes@).len() > 0 ==> (match re {
+            Some(Ok(r)) => regex::compile_spec(pattern_spec(b.block.attributes@)) == Some(r),
+            Some(Err(_)) => regex::compile_spec(pattern_spec(b.block.attributes@)) is None,
+            None => false,
+        }))
+}
+
+/// V1's proven contract, given that it returned Ok, read on the list of the block's own file
+spec fn ks_inner_ok(b: BlockWithContext, fb: FileBlocks, re: Option<Result<regex::Regex, regex::Error>>, fmt: SortFormat, viol: Ordering,
+    before: Seq<Violation>, after: Seq<Violation>) -> bool {
+    let content = content_of(b.block, fb.file_content@);
+    &&& ((forall|i: int| !#[trigger] out_of_order(fmt, viol, keys_of(re, content), i)) && (forall|i: int| !#[trigger] cmp_fails(fmt, keys_of(re, content), i))
+            && !(re matches Some(Err(_))) ==> after == before)
+    &&& (forall|i: int| #[trigger] first_stop(fmt, viol, keys_of(re, content), i) && out_of_order(fmt, viol, keys_of(re, content), i)
+            ==> exists|v: Violation| after == before.push(v) && #[trigger] key_range_ok(v, b.block, re, content, i) && v.code@ == "keep-sorted"@)
+    &&& (forall|i: int| !(#[trigger] first_stop(fmt, viol, keys_of(re, content), i) && cmp_fails(fmt, keys_of(re, content), i)))
+    &&& !((re matches Some(Err(_))) && lines_of(content).len() > 0)
+}
+
+spec fn ks_step(fb: FileBlocks, j: int, before: Seq<Violation>, after: Seq<Violation>) -> bool {
+    let b = fb.blocks_with_context@[j];
+    if !ks_has(b) {
+        after == before // [VO1.post.other_blocks_untouched]
+    } else {
+        exists|re: Option<Result<regex::Regex, regex::Error>>, fmt: SortFormat, viol: Ordering|
+            #[trigger] ks_args_ok(b, re, fmt, viol) && ks_inner_ok(b, fb, re, fmt, viol, before, after)
+    }
+}
+
+spec fn ks_stepf() -> spec_fn(PathBuf, FileBlocks) -> spec_fn(int, Seq<Violation>, Seq<Violation>) -> bool {
+    |f: PathBuf, fb: FileBlocks| (|j: int, a: Seq<Violation>, b: Seq<Violation>| ks_step(fb, j, a, b))
+}
+
+/// C13: some block carries an unknown sort direction or format
+spec fn ks_must_err(ctx: ValidationContext) -> bool {
+    exists|f: PathBuf, j: int| ctx.blocks@.contains_key(f) && 0 <= j < ctx.blocks@[f].blocks_with_context@.len()
+        && ks_has(#[trigger] ctx.blocks@[f].blocks_with_context@[j])
+        && (direction_spec(ks_value(ctx.blocks@[f].blocks_with_context@[j])) is None
+            || format_spec(ctx.blocks@[f].blocks_with_context@[j].block.attributes@) is None)
+}
+
+/// the inner contracts do not promise Ok for this block (malformed direction/format, or not silently sorted)
+spec fn ks_block_may_err(b: BlockWithContext, fb: FileBlocks) -> bool {
+    direction_spec(ks_value(b)) is None || format_spec(b.block.attributes@) is None
+    || exists|re: Option<Result<regex::Regex, regex::Error>>, fmt: SortFormat, viol: Ordering| #[trigger] ks_args_ok(b, re, fmt, viol)
+        && !((forall|i: int| !#[trigger] out_of_order(fmt, viol, keys_of(re, content_of(b.block, fb.file_content@)), i))
+             && (forall|i: int| !#[trigger] cmp_fails(fmt, keys_of(re, content_of(b.block, fb.file_content@)), i))
+             && !(re matches Some(Err(_))))
+}
+
+spec fn ks_may_err(ctx: ValidationContext) -> bool {
+    exists|f: PathBuf, j: int| ctx.blocks@.contains_key(f) && 0 <= j < ctx.blocks@[f].blocks_with_context@.len()
+        && ks_has(#[trigger] ctx.blocks@[f].blocks_with_context@[j])
+        && ks_block_may_err(ctx.blocks@[f].blocks_with_context@[j], ctx.blocks@[f])
+}
+
+
+proof fn lemma_ks_step_frame(fb1: FileBlocks, fb2: FileBlocks, j: int, a: Seq<Violation>, b: Seq<Violation>)
+    requires 0 <= j < fb1.blocks_with_context@.len() == fb2.blocks_with_context@.len(), fb1.file_content@ == fb2.file_content@, fb1.blocks_with_context@[j].block == fb2.blocks_with_context@[j].block,
+    ensures ks_step(fb1, j, a, b) == ks_step(fb2, j, a, b),
+{
+    let b1 = fb1.blocks_with_context@[j];
+    let b2 = fb2.blocks_with_context@[j];
+    if ks_has(b1) {
+        if ks_step(fb1, j, a, b) {
+            let (re, fmt, viol) = choose|re: Option<Result<regex::Regex, regex::Error>>, fmt: SortFormat, viol: Ordering|
+                #[trigger] ks_args_ok(b1, re, fmt, viol) && ks_inner_ok(b1, fb1, re, fmt, viol, a, b);
+            assert(ks_args_ok(b2, re, fmt, viol) && ks_inner_ok(b2, fb2, re, fmt, viol, a, b));
+        }
+        if ks_step(fb2, j, a, b) {
+            let (re, fmt, viol) = choose|re: Option<Result<regex::Regex, regex::Error>>, fmt: SortFormat, viol: Ordering|
+                #[trigger] ks_args_ok(b2, re, fmt, viol) && ks_inner_ok(b2, fb2, re, fmt, viol, a, b);
+            assert(ks_args_ok(b1, re, fmt, viol) && ks_inner_ok(b1, fb1, re, fmt, viol, a, b));
+        }
+    }
+}
+
+/// [VO1.lemma.flags_are_not_an_input] C02 frame: which lists the blocks of a file can leave behind does not
+/// depend on `is_content_modified` / `_is_start_tag_modified` (no contract mentions them)
+proof fn lemma_ks_frame(f: PathBuf, fb1: FileBlocks, fb2: FileBlocks, l: Seq<Violation>)
+    requires same_but_flags(fb1, fb2),
+    ensures acc_ok(ks_stepf()(f, fb1), fb1.blocks_with_context@.len() as int, l) == acc_ok(ks_stepf()(f, fb2), fb2.blocks_with_context@.len() as int, l),
+{
+    assert forall|j: int, a: Seq<Violation>, b: Seq<Violation>| 0 <= j < fb1.blocks_with_context@.len()
+        implies #[trigger] ks_stepf()(f, fb1)(j, a, b) == ks_stepf()(f, fb2)(j, a, b) by {
+        assert(fb1.blocks_with_context@[j].block == fb2.blocks_with_context@[j].block);
+        lemma_ks_step_frame(fb1, fb2, j, a, b);
+    }
+    lemma_acc_congruent(ks_stepf()(f, fb1), ks_stepf()(f, fb2), fb1.blocks_with_context@.len() as int, l);
+}
+
+impl KeepSortedValidator {
+
+//@stubof group=keep_sorted unit=V1d
+
+//@stubof group=keep_sorted unit=V1
+
+#[verifier::loop_isolation(false)]
+//@unit id=VO1 file=src/validators/keep_sorted.rs fn=<<impl ValidatorSync for KeepSortedValidator::validate>>
+//@sig rule=E7 was=<<fn validate(&self, context: Arc<validators::ValidationContext>,) -> anyhow::Result<HashMap<PathBuf, Vec<Violation>>>>>
+    fn validate(&self, context: Arc<ValidationContext>) -> (r: anyhow::Result<HashMap<PathBuf, Vec<Violation>>>)
+//@contract
+        requires
+            ctx_blocks_wf(*context),
+        ensures
+            r matches Ok(m) ==> outer_ok(*context, m@, ks_stepf()), // [VO1.post.result_is_accumulation_of_inner_results]
+            ks_must_err(*context) ==> r is Err, // [VO1.post.err_propagates]
+            // an error is not invented: it needs a block with the attribute for which the inner contract allows Err
+            r is Err ==> ks_may_err(*context), // [VO1.post.err_only_from_inner]
+//@replaceslice rule=SLICE-CALL of=keep_sorted:V1d
+let (keep_sorted_normalized, re, sort_format, violating_ord) = Self::v1_prefix(block_with_context, file_path, keep_sorted)?;
+//@replaceslice rule=SLICE-CALL of=keep_sorted:V1
+Self::v1_loop(block_with_context, file_blocks, file_path, re, sort_format, violating_ord, keep_sorted_normalized, &mut violations)?;
+//@macro rule=E1 name=anyhow to=<<anyhow::verif_err()>> optional=1
+//@edit rule=E19 find=<<let mut violations = HashMap::new()>>
+let mut violations: HashMap<PathBuf, Vec<Violation>> = HashMap::new()
+//@edit rule=ghost before=<<let mut violations>>
+        broadcast use affx::group_affx;
+//@edit rule=ghost before=<<for block_with_context in &file_blocks.blocks_with_context>>
+            let ghost v0 = violations@;
+            proof {
+                assert(verif_ents@[it.index@ as int] == (file_path, file_blocks));
+                lemma_file_start(verif_ents@, it.index@ as int, v0, ks_stepf()); // [VO1.proof.each_file_visited_once]
+            }
+//@edit rule=E4 find=<<for (file_path, file_blocks) in &context.blocks>>
+        let verif_ents = verif_ref_entries(&context.blocks);
+        for (file_path, file_blocks) in it: verif_ents
+            invariant
+                ref_entries_of(verif_ents@, context.blocks@),
+                ctx_blocks_wf(*context),
+                visited_ok(verif_ents@, it.index@ as int, violations@, ks_stepf()),
+//@foridx rule=E18 find=<<for block_with_context in &file_blocks.blocks_with_context>> idx=verif_j
+                invariant
+                    verif_j <= file_blocks.blocks_with_context@.len(),
+                    0 <= it.index@ < verif_ents@.len(),
+                    verif_ents@[it.index@ as int] == (file_path, file_blocks),
+                    file_ok(*file_path, *file_blocks, verif_j as int, v0, violations@, ks_stepf()(*file_path, *file_blocks)),
+                decreases file_blocks.blocks_with_context@.len() - verif_j,
+//@edit rule=ghost after=<<verif_j = verif_j + 1;>>
+                let ghost m1 = violations@;
+                proof {
+                    assert(*block_with_context == file_blocks.blocks_with_context@[verif_j - 1]);
+                    assert(context.blocks@.contains_key(*file_path) && context.blocks@[*file_path] == *file_blocks);
+                    assert(block_wf(context.blocks@[*file_path].blocks_with_context@[verif_j - 1].block));
+                    if !ks_has(*block_with_context) {
+                        lemma_file_step(*file_path, *file_blocks, verif_j - 1, v0, m1, m1, ks_stepf()(*file_path, *file_blocks)); // [VO1.proof.block_without_attribute_is_skipped]
+                    }
+                }
+//@edit rule=ghost before=<<Self::v1_loop(>>
+                let ghost re0 = re;
+                proof { assert(ks_has(*block_with_context) && keep_sorted@ == ks_value(*block_with_context) && ks_args_ok(*block_with_context, re0, sort_format, violating_ord)); } // [VO1.proof.args_are_the_blocks_own]
+//@edit rule=ghost after=<<violating_ord, keep_sorted_normalized, &mut violations)?;>>
+                proof {
+                    assert(ks_inner_ok(*block_with_context, *file_blocks, re0, sort_format, violating_ord, map_get_or_empty(m1, *file_path), map_get_or_empty(violations@, *file_path))); // [VO1.proof.inner_contract_implies_step_relation]
+                    lemma_file_step(*file_path, *file_blocks, verif_j - 1, v0, m1, violations@, ks_stepf()(*file_path, *file_blocks)); // [VO1.proof.inner_contract_gives_step]
+                }
+//@edit rule=ghost before=<<} Ok(violations)>>
+            proof { lemma_file_done(verif_ents@, it.index@ as int, v0, violations@, ks_stepf()); } // [VO1.proof.file_done]
+//@edit rule=ghost before=<<Ok(violations)>>
+        proof {
+            assert(outer_ok(*context, violations@, ks_stepf())) by {
+                lemma_visited_all(*context, verif_ents@, violations@, ks_stepf());
+            }
+            assert(!ks_must_err(*context)) by { // [VO1.proof.must_err_block_cannot_have_stepped]
+                if ks_must_err(*context) {
+                    let (f, j) = choose|f: PathBuf, j: int| context.blocks@.contains_key(f) && 0 <= j < context.blocks@[f].blocks_with_context@.len()
+                        && ks_has(#[trigger] context.blocks@[f].blocks_with_context@[j])
+                        && (direction_spec(ks_value(context.blocks@[f].blocks_with_context@[j])) is None
+                            || format_spec(context.blocks@[f].blocks_with_context@[j].block.attributes@) is None);
+                    lemma_acc_step(ks_stepf()(f, context.blocks@[f]), context.blocks@[f].blocks_with_context@.len() as int, map_get_or_empty(violations@, f), j);
+                }
+            }
+        }
+//@end
+} // impl
+} // mod ks
 
 } // verus!
 fn main() {}
